@@ -86,6 +86,13 @@ def typedLine (st : YState) (e : SExp) : YState × String :=
     -- after shutdown every constructor fails, on the typed side exactly as on the untyped one
     if ta != ua then ({ st with dead := true }, s!"reject C20/C12 after shutdown the typed constructors answered {repr ta}, the untyped ones {repr ua}")
     else (st, "ok")
+  | .list [.atom "tfref", _, ta, ua] =>
+    if ta != ua then ({ st with dead := true }, s!"reject C20 Refilter on the typed clones answered {repr ta}, on the untyped ones {repr ua}")
+    else (st, "ok")
+  | .list [.atom "tfobs", ta, ua] =>
+    -- (only emitted when the server holds objects of the one type: no restriction to apply)
+    if ta != ua then ({ st with dead := true }, s!"reject C20/C06/C08 the typed deferred / filtered clones (ready done content, twice) are {repr ta}, the untyped ones {repr ua}")
+    else (st, "ok")
   | .list [.atom "tlazy", tevs, uevs, tc, uc] =>
     match decEvs tevs, decEvs uevs, decBool tc, decBool uc with
     | some tevs, some uevs, some tc, some uc =>
